@@ -269,6 +269,9 @@ PrevEntryMismatchAt(n, old, new) ==
     /\ new[n].st = "Follower" /\ new[n].log # old[n].log /\ new[n].log # <<>>
     /\ LET e == LastRec(new[n]) IN
        /\ ~e.com /\ e.idx > 1 /\ Entry(e) \notin Stored(old[n])
+       \* the follower HOLDS an entry before e and it is a different one (an entry stored over a GAP is not this defect:
+       \* every branch of validate_log_append checks adjacency)
+       /\ EntriesAt(new[n], e.idx - 1) # {}
        /\ \E m \in Node \ {n} : Entry(e) \in Stored(new[m]) /\ EntriesAt(new[m], e.idx - 1) # EntriesAt(new[n], e.idx - 1)
 PrevEntryMismatch(old, new) == \E n \in Node : PrevEntryMismatchAt(n, old, new)
 PrevTainted(old, new) ==
@@ -332,8 +335,10 @@ CAExplained(h, nodes) ==
   \A a, b \in Node : \A x \in Committed(nodes[a]), y \in Committed(nodes[b]) :
      (x.idx = y.idx /\ x # y) => (x \in h.taint \/ y \in h.taint \/ h.lcx)
 CSExplained(h, nodes) == \A n \in Node : \A x \in h.ec[n] \ Committed(nodes[n]) : x \in h.taint \/ h.lcx
+LCExplained(h) == \A p \in h.missing : p[2] \in h.taint
 TrigFor(name, h, nodes) ==
   IF name = "CommitAgreement" /\ ~CAExplained(h, nodes) THEN {}
   ELSE IF name = "CommitStable" /\ ~CSExplained(h, nodes) THEN {}
+  ELSE IF name = "LeaderCompleteness" /\ ~LCExplained(h) THEN {}
   ELSE h.trig
 =============================================================================
